@@ -80,7 +80,7 @@ func init() {
 		}
 		hasTopk := hasFeat(feats, "agg:topk") || hasFeat(feats, "agg:bottomk")
 		if d := oracle.Equal(dist, central, tol); d != "" {
-			if hasTopk && dist.Err == nil && central.Err == nil && TopkAmbiguous(c, expr, union) {
+			if hasTopk && TopkAmbiguous(c, expr, union) {
 				feats = append(feats, "topk-tie-not-judged")
 			} else {
 				kc := *c
